@@ -16,6 +16,22 @@ FLOORS = {
               "tuned_fits": 40, "pelt_ladders": 40, "K6_evaluations": 1000},
     "thorough": {"distinct_nontrivial": 3000, "grid_points": 3000, "detector_fits": 3000},
 }
+ANCHORS = [
+    "skchange.anomaly_detectors.mvcapa.capa_penalty",
+    "skchange.anomaly_detectors.mvcapa.dense_mvcapa_penalty",
+    "skchange.anomaly_detectors.mvcapa.sparse_mvcapa_penalty",
+    "skchange.anomaly_detectors.mvcapa.intermediate_mvcapa_penalty",
+    "skchange.anomaly_detectors.mvcapa.combined_mvcapa_penalty",
+    "skchange.anomaly_detectors.mvcapa.capa_penalty_factory",
+    "skchange.change_detectors.pelt.PELT.get_default_penalty",
+    "skchange.change_detectors.moving_window.MovingWindow.get_default_threshold",
+    "skchange.change_detectors.seeded_binseg.SeededBinarySegmentation.get_default_threshold",
+    "skchange.anomaly_detectors.circular_binseg.CircularBinarySegmentation.get_default_threshold",
+    "skchange.change_detectors.moving_window.MovingWindow._tune_threshold",
+    "skchange.change_detectors.seeded_binseg.SeededBinarySegmentation._tune_threshold",
+    "skchange.anomaly_detectors.circular_binseg.CircularBinarySegmentation._tune_threshold",
+    "skchange.anomaly_detectors.capa.CAPA._get_penalty_components",
+]
 LEVEL = "exploration"
 EXHAUSTIVE_SUBSPACES = {
     t: ["penalty families on the full grid n in {2,3,5,10,100,1e3,1e5} x p in {1,2,3,5,10,50} x "
